@@ -127,8 +127,44 @@ def catalogue():
     return T
 
 
+# ---- composed templates: every ordered sequence of blocks (the passes are global regex sweeps, so a block can
+# interact with any other block of the same template: lazy bodies running across a neighbour's closing tag, ...)
+BLOCKS = {
+    "var": lambda i: ([("var", f"x{i}")], [f"x{i}"]),
+    "opt": lambda i: ([("opt", f"x{i}")], [f"x{i}"]),
+    "default": lambda i: ([("default", f"x{i}", "d")], [f"x{i}"]),
+    "filter": lambda i: ([("filter", f"x{i}", "upper")], [f"x{i}"]),
+    "if": lambda i: ([("if", f"c{i}", [("text", "T"), ("var", f"x{i}")], None)], [f"c{i}", f"x{i}"]),
+    "ifelse": lambda i: ([("if", f"c{i}", [("text", "T")], [("text", "E"), ("var", f"x{i}")])], [f"c{i}", f"x{i}"]),
+    "each": lambda i: ([("each", f"xs{i}", [("item",), ("text", ","), ("last",)])], [f"xs{i}"]),
+    "include": lambda i: ([("include", "inner")], []),
+    "ghost": lambda i: ([("include", "ghost")], []),
+}
+
+
+def composed(kinds):
+    nodes, slots = [], []
+    for i, k in enumerate(kinds):
+        nd, sl = BLOCKS[k](i)
+        nodes += nd + [("text", " %d " % i)]
+        slots += sl
+    incl = {"inner": [("text", "("), ("opt", "x0"), ("text", ")")]} if "include" in kinds else {}
+    return ("seq:" + "+".join(kinds), nodes, incl, slots, "composed")
+
+
+def composed_names(k):
+    import itertools
+    return ["seq:" + "+".join(ks) for ks in itertools.product(sorted(BLOCKS), repeat=k)]
+
+
 CAT = catalogue()
 NAMES = [t[0] for t in CAT]
+
+
+def lookup(tname):
+    if tname.startswith("seq:"):
+        return composed(tname[4:].split("+"))
+    return [t for t in CAT if t[0] == tname][0]
 
 
 def has_delim(v):
@@ -147,7 +183,7 @@ def has_delim(v):
 
 def render_check(tname, L, mode):
     """mode: 'plain' (delimiter-free values, clause a) | 'opaque' (any value, clause b)"""
-    name, nodes, incl, slots, construct = [t for t in CAT if t[0] == tname][0]
+    name, nodes, incl, slots, construct = lookup(tname)
 
     def h(c):
         rib = RB.Ribosome(silent=True, strict=False)
@@ -156,13 +192,15 @@ def render_check(tname, L, mode):
         ctx = {}
         values = []
         for s in slots:
-            if s == "xs":
-                n = c.choice("n_items", [0, 1, 2, "aba"])
-                items = [SStr.fresh(c, f"item{j}", c.choice(f"len_item{j}", list(range(1, L + 1))), ALPHA) for j in range(2 if n == "aba" else n)]
+            if s.startswith("xs"):
+                n = c.choice(f"n_items_{s}", [0, 1, 2, "aba"] if s == "xs" else [0, 1, 2])
+                items = [SStr.fresh(c, f"item{j}_{s}", c.choice(f"len_item{j}_{s}", list(range(1, L + 1))), ALPHA) for j in range(2 if n == "aba" else n)]
                 if n == "aba":
                     items = [items[0], items[1], items[0]]      # the very same object first and last (position, not identity, decides first/last)
-                ctx["xs"] = items
+                ctx[s] = items
                 values += items
+            elif s.startswith("c") and s != "c":
+                ctx[s] = c.choice(f"cond_{s}", [True, False])
             else:
                 bound = c.choice(f"bound_{s}", [True, False]) if s != "y" else True
                 if bound:
@@ -252,7 +290,9 @@ def instrumentation_selftest():
 
 HARNESSES = {
     "plain_values": {"make": render_check, "witness_every": 13,
-                     "jobs": lambda tier: [{"tname": t, "L": 2 if tier == "quick" else 3, "mode": "plain"} for t in NAMES],
+                     "jobs": lambda tier: [{"tname": t, "L": 2 if tier == "quick" else 3, "mode": "plain"} for t in NAMES]
+                     + [{"tname": t, "L": 1, "mode": "plain"} for t in composed_names(2)]
+                     + ([{"tname": t, "L": 1, "mode": "plain"} for t in composed_names(3) if "ghost" not in t and "default" not in t] if tier != "quick" else []),
                      "clauses": ["C12.a", "C12.a-warn"]},
     "opacity": {"make": render_check, "witness_every": 13,
                 "jobs": lambda tier: [{"tname": t, "L": 3 if tier == "quick" else 4, "mode": "opaque"} for t in NAMES],
